@@ -529,6 +529,26 @@ package server
 //@   ensures foreign(result)
 //@ unit server.toMap
 //@   prop C02 C01
+//@   ghost firstG bool = true
+//@   ghost taggedG bool = false
+//@   ghost keptG bool = false
+//@   ghost omitG bool = false
+//@   ghost tagG string = ""
+//@   ghost valG iface
+//@   at call Get#1
+//@     ghost firstG := false
+//@     ghost taggedG := false
+//@     ghost keptG := false
+//@   at call Field#2
+//@     ghost taggedG := true
+//@   at call SplitN#1
+//@     ghost tagG := $result[0]
+//@     ghost omitG := len($result) > 1 && $result[1] == "omitempty"
+//@     ghost valG := val
+//@   at call toJsonValue#3
+//@     ghost keptG := true
+//@   loop 1
+//@     invariant [C02,C01:a-tagged-field-is-left-out-only-when-it-is-an-omitempty-field-holding-its-zero-value-so-differing-content-never-compares-equal] firstG || !taggedG || keptG || (omitG && zeroOmit(tagG, valG))
 //@   at call toJsonValue#3 before
 //@     assert [C02,C01:an-omitempty-field-of-an-entity-that-holds-its-zero-value-is-left-out-as-the-stored-json-leaves-it-out] !(len(t) > 1 && t[1] == "omitempty" && zeroOmit(t[0], val))
 //@ unit server.IsEntityEqual
